@@ -223,3 +223,29 @@ Definition step (fx : bool) (q : oparams) (s : ostate) (o : op) : result :=
           (mkEff [] [])
   | OOther => ROk s (mkEff [] [])
   end.
+
+(* ================================================================ the Votes store across steps *)
+
+(** The Votes store lives across blocks: a validator's aggregate vote stays until it is overwritten or
+    until clearVotesAndPrevotes at a vote-period end.  In a history, an [OEnd st svs h] step carries in
+    [votes st] only the votes SUBMITTED since the previous step; the store the EndBlocker sees is the
+    previous store with these put on top. *)
+Definition with_votes (st : state) (vs : list avote) : state :=
+  mkState (validators st) (max_validators st) (bonded_tokens st) (power_reduction st) (whitelist st) vs (rates st).
+Definition eff_state (store : list avote) (st : state) : state := with_votes st (put_votes store (votes st)).
+Definition eff_op (store : list avote) (o : op) : op :=
+  match o with OEnd st svs h => OEnd (eff_state store st) svs h | _ => o end.
+Definition next_store (q : oparams) (store : list avote) (o : op) : list avote :=
+  match o with
+  | OEnd st _ h => if is_period_last h (p_vote_period (op_base q)) then [] else put_votes store (votes st)
+  | _ => store
+  end.
+
+Record hst12 := mkHst12 { h12_os : ostate; h12_store : list avote }.
+Inductive hresult := HPanic | HOk (s : hst12) (e : effects).
+
+Definition hstep12 (fx : bool) (q : oparams) (s : hst12) (o : op) : hresult :=
+  match step fx q (h12_os s) (eff_op (h12_store s) o) with
+  | RPanic => HPanic
+  | ROk s1 e => HOk (mkHst12 s1 (next_store q (h12_store s) o)) e
+  end.
